@@ -35,6 +35,7 @@ R = 'spec.rfc8032.'
 CURVES = ('Ed25519', 'Ed448')
 CID = {'Ed25519': R + 'ED25519', 'Ed448': R + 'ED448'}
 GID = {'Ed25519': 25519, 'Ed448': 448}                      # == spec.rfc8032.ED25519 / ED448 (checked in registry())
+BLEN = {'Ed25519': 32, 'Ed448': 57}
 LVAL = {'Ed25519': R + 'L25519', 'Ed448': R + 'L448'}
 HCLS = {'Ed25519': SHA, 'Ed448': XOF}
 # how the code under contract names the two hash classes (clauses are evaluated in the scope of Crypto.Signature.eddsa)
@@ -44,6 +45,10 @@ HNAME = {'Ed25519': 'SHA512.SHA512Hash', 'Ed448': 'SHAKE256.SHAKE256_XOF'}
 # Ed448ph PH = 64 octets of SHAKE256 output, read from the position the caller's XOF is at (RFC 8032 5.2: SHAKE256(M, 64), i.e. g_pos == 0)
 PHOBJ = {'Ed25519': R + 'sha512t(msg_or_hash.digest_size, msg_or_hash.g_data)',
          'Ed448': R + 'shake256_at(msg_or_hash.g_data, msg_or_hash.g_pos, 64)'}
+
+# path exploration prunes over an abstraction of the sequence theory (vf/pyvc/absfeas.py: a strict over-approximation; z3 needs
+# 0.4 .. 3 s to build a model with a 64 / 114 octet string, i.e. for every satisfiable branch of this code)
+OPTS = {'feas_abstract_seq': True}
 
 BASE = 'self._key._curve.G.g_pt'
 PUB = 'self._key._point.g_pt'
@@ -67,6 +72,13 @@ def phm(c):
 
 def accept(c):
     return R + 'verify_ok(%s, %s, %s, self._context, %s, %s, signature)' % (CID[c], BASE, PUB, flag(c), phm(c))
+
+
+def sign_args(c, which):
+    a = {'r': (CID[c], 'self._key._prefix', 'self._context', flag(c), phm(c)),
+         'R': (CID[c], BASE, 'self._key._prefix', 'self._context', flag(c), phm(c)),
+         'S': (CID[c], BASE, 'self._key._d._value', 'self._key._prefix', PUB, 'self._context', flag(c), phm(c))}[which]
+    return R + 'sign_%s(%s)' % (which, ', '.join(a))
 
 
 def signature_of(c):
@@ -152,18 +164,19 @@ def add_ed_key(reg, curve=None):
                      returns='self.g_pt == point.g_pt', modifies=[], options={'exact': True},
                      assumed='point comparison == equality of the abstract group elements (C06; bounded/ec.py k_group)'))
     # the curve object of a key: parameter set designated by g_id; L is the constant of RFC 8032 5.1 / 5.2
+    point = 'obj:%s|none' % PT
     if curve is None:
         gid, name = 'int', "enum('Ed25519','Ed448')|str"
         order = ['self.g_id == %sED25519 ==> self.order._value == %sL25519' % (R, R),
                  'self.g_id == %sED448 ==> self.order._value == %sL448' % (R, R)]
     else:
         gid, name = ('const', GID[curve]), ('const', curve)
+        point = 'obj:' + PT          # every key met by sign / verify has its public point (scheme invariant, import_public_key, EccKey(point=))
         order = ['self.order._value == %s' % LVAL[curve]]
     reg.add(ClassContract(CURVE, fields={'order': OINT, 'G': 'obj:' + PT, 'g_id': gid},
                           valid=['self.order._value >= 2', 'spec.mathint.prime(self.order._value)', 'self.G.g_curve == self.g_id'] + order))
     reg.add(ClassContract(KEY,
-                          fields={'_curve': 'obj:' + CURVE, '_point': 'obj:%s|none' % PT, '_d': OINT + '|none', '_prefix?': 'bytes',
-                                  'curve': name},
+                          fields={'_curve': 'obj:' + CURVE, '_point': point, '_d': OINT + '|none', '_prefix?': 'bytes', 'curve': name},
                           valid=['self._point is not None or self._d is not None',
                                  'self._point is None or self._point.g_curve == self._curve.g_id',
                                  'self._d is None or self._d._value >= 1',
@@ -239,25 +252,28 @@ def import_public():
                     ensures={'curve': 'result.curve == ("Ed25519" if len(encoded) == 32 else "Ed448") and result._curve.g_id == ' + cur,
                              'point': 'result._point is not None and result._point.g_pt == %sdec(%s, encoded) and result._point.g_curve == %s' % (R, cur, cur),
                              'public': 'result._d is None'},
-                    modifies=[])
+                    modifies=[], options=dict(OPTS))
 
 
 def verify_leaf(c):
     fn = {'Ed25519': '_verify_ed25519', 'Ed448': '_verify_ed448'}[c]
-    return Contract(SCH + '.' + fn, params={'msg_or_hash': 'bytes|obj:' + HCLS[c], 'signature': 'bytes', 'ph': 'bool'},
+    return Contract(SCH + '.' + fn, params={'msg_or_hash': 'bytes|obj:' + HCLS[c], 'signature': 'bytes', 'ph': 'enum(False, True)'},
                     requires=[is_curve(c), 'ph == isinstance(msg_or_hash, %s)' % HNAME[c]],
                     raises={'ValueError': ('iff', 'not ' + accept(c))},
                     ensures={'none': 'result is None'},
-                    modifies=[])
+                    modifies=[], options=dict(OPTS))
 
 
 def sign_leaf(c):
     fn = {'Ed25519': '_sign_ed25519', 'Ed448': '_sign_ed448'}[c]
-    return Contract(SCH + '.' + fn, params={'msg_or_hash': 'bytes|obj:' + HCLS[c], 'ph': 'bool'},
+    return Contract(SCH + '.' + fn, params={'msg_or_hash': 'bytes|obj:' + HCLS[c], 'ph': 'enum(False, True)'},
                     requires=[is_curve(c), 'self._key._d is not None', 'ph == isinstance(msg_or_hash, %s)' % HNAME[c]],
                     raises={},
                     ensures={'rfc8032': 'result == ' + signature_of(c), 'length': 'len(result) == 2 * %sblen(%s)' % (R, CID[c])},
-                    result='bytes', modifies=[])
+                    lemmas={'exit': {'R': 'result[:%d] == %s' % (BLEN[c], sign_args(c, 'R')),
+                                     'S': 'result[%d:] == i2le(%s, %d)' % (BLEN[c], sign_args(c, 'S'), BLEN[c]),
+                                     'halves': 'result == result[:%d] + result[%d:]' % (BLEN[c], BLEN[c])}},
+                    result='bytes', modifies=[], options=dict(OPTS))
 
 
 ANYMSG = 'bytes|obj:%s|obj:%s|any' % (SHA, XOF)
@@ -271,7 +287,7 @@ def verify_top():
     return Contract(SCH + '.verify', params={'msg_or_hash': ANYMSG, 'signature': 'bytes'},
                     raises={'TypeError': ('iff', wrong_type), 'ValueError': ('iff', rejected)},
                     ensures={'none': 'result is None'},
-                    modifies=[], opaque=[R + 'verify_ok'])
+                    modifies=[], opaque=[R + 'verify_ok'], options=dict(OPTS))
 
 
 def sign_top():
@@ -283,7 +299,7 @@ def sign_top():
                     ensures={'rfc8032': '(%s ==> result == %s) and (%s ==> result == %s)' % (
                         is_curve(c1), signature_of(c1), is_curve(c2), signature_of(c2)),
                         'length': '(%s ==> len(result) == 64) and (%s ==> len(result) == 114)' % (is_curve(c1), is_curve(c2))},
-                    result='bytes', modifies=[], opaque=[R + 'sign'])
+                    result='bytes', modifies=[], opaque=[R + 'sign'], options=dict(OPTS))
 
 
 def registry(curve=None):
